@@ -19,10 +19,10 @@ def describe(sig, lines, rel, info):
             racing = False
         elif ('"ev":"ReplicaStep"' in ln or '"ev":"RWrite"' in ln) and since_meta and not done:
             racing = True
-        elif '"ev":"FamilyCommit"' in ln:
+        elif '"ev":"FamilyCommit"' in ln or '"ev":"IdxCommit"' in ln:
             if racing:
                 done = True
-            if inround:
+            if inround and '"ev":"FamilyCommit"' in ln:
                 window = True
         if '"ev":"RWrite"' in ln:
             inround = True
